@@ -341,6 +341,19 @@ def model_harness(doc: dict, package: str, data: Any, depth_max: int = 2, list_m
         src.append(func_source(fn2, g, body, f"tristate_ok({cls}, build(), build(), {names!r}, UNSET)"))
         funcs.append(fn2)
         meta[name] = {"class": cls, "args": len(g.args), "schema_keys": sorted(schema.keys()) if isinstance(schema, dict) else []}
+        # C10/C15: what the document (after flattening allOf) requires is demanded by the decoder and the constructor
+        req_doc = [r for r in (alts[0]["schema"].get("required") or []) if r in (alts[0]["schema"].get("properties") or {})]
+        if req_doc:
+            g6 = Gen(doc, depth_max, list_max, str_max)
+            body6 = ["    def build():"]
+            g6.emit_object(alts[0]["schema"], body6, "        ", "t", 0, False)
+            body6.append("        return t")
+            di = g6.arg("drop", "int", f"0 <= $ < {len(req_doc)}")
+            pyof = dict(names)
+            table = tuple((r, pyof.get(r, ""), "default" in deref(doc, alts[0]["schema"]["properties"][r])) for r in req_doc)
+            fn6 = f"reqd_{cls}"
+            src.append(func_source(fn6, g6, body6, f"required_ok({cls}, build(), pick({table!r}, {di}))"))
+            funcs.append(fn6)
         # C11: annotations are truthful for every decoded instance
         fn3 = f"ann_{cls}"
         src.append(func_source(fn3, g, body, f"annotations_ok({cls}, build(), {names!r}, _NS)"))
@@ -390,7 +403,7 @@ def model_harness(doc: dict, package: str, data: Any, depth_max: int = 2, list_m
             fn5 = f"memb_{cls}_{p.python_name}"
             src.append(func_source(fn5, gb, base_lines, f"membership_ok({cls}, build(), {p.name!r}, pick({tuple(cands)!r}, {ci}), {ci} < {len(vals)}, {str(p.python_name)!r})"))
             funcs.append(fn5)
-    src.insert(2, "from vlib.e3_support import annotations_ok, defaults_ok, membership_ok, tristate_ok")
+    src.insert(2, "from vlib.e3_support import annotations_ok, defaults_ok, membership_ok, required_ok, tristate_ok")
     src.insert(3, f"import {package}.models as _models\nimport datetime, uuid, typing\n_NS = dict(vars(_models), datetime=datetime, UUID=uuid.UUID, Unset=Unset, **vars(typing))")
     return "\n".join(src) + "\n", funcs, meta
 
